@@ -18,8 +18,8 @@ def g(fam, **kw):
 
 V1_QUICK = g('stream', v1good=150, v1corrupt=120, v1struct=120, v1mutate=200, v1trunc=10, v1len=25, v1max=30, v1junk=80, v1cr=60, bytes=40)
 V1_THOROUGH = g('stream', v1good=4000, v1corrupt=4000, v1struct=3000, v1mutate=8000, v1trunc=300, v1len=400, v1max=600, v1junk=2500, v1cr=1500, bytes=1000)
-V2_QUICK = g('stream', v2good=120, v2corrupt=150, v2mutate=250, bparse=150, v2ctrl=700, v2len=330, v2sig=60, mixed=80, bytes=40)
-V2_THOROUGH = g('stream', v2good=3000, v2corrupt=4000, v2mutate=8000, bparse=4000, v2ctrl=65536, v2len=2500, v2sig=3060, mixed=2000, bytes=1000)
+V2_QUICK = g('stream', v2good=120, v2corrupt=150, v2mutate=250, bparse=150, v2ctrl=700, v2len=330, v2sig=60, mixed=80, bytes=40, huge=4)
+V2_THOROUGH = g('stream', v2good=3000, v2corrupt=4000, v2mutate=8000, bparse=4000, v2ctrl=65536, v2len=2500, v2sig=3060, mixed=2000, bytes=1000, huge=60)
 IPTEXT_QUICK = g('iptext', iprand=400)
 IPTEXT_THOROUGH = g('iptext', iprand=20000)
 TLV_QUICK = g('tlv', tlvrand=150, tlvtrunc=150, tlvbig=10, tlvmany=6, tlvprog=60)
@@ -71,7 +71,7 @@ PROPS = {
     'C03': dict(
         gens=dict(
             quick=V1_QUICK + g('stream', v2good=60, v2corrupt=60, v2ctrl=300, v2len=120, mixed=60) + TLV_QUICK
-            + g('stream', bigtrail=3) + g('builder', bseq=60, rebuild=30, bwire=20) + g('writer', wvals=60, wints=1, wbig=1, wpersist=10, wraw=6) + g('format', fmtshapes=60, fmtrand=60)
+            + g('stream', bigtrail=3, huge=2) + g('builder', bseq=60, rebuild=30, bwire=20) + g('writer', wvals=60, wints=1, wbig=1, wpersist=10, wraw=6) + g('format', fmtshapes=60, fmtrand=60)
             + g('convert', cvrand=66),
             thorough=V1_THOROUGH + V2_THOROUGH + TLV_THOROUGH + g('builder', bseq=3000, rebuild=1000, bwire=500)
             + g('writer', wvals=3000, wints=20, wtlv=2) + g('format', fmtshapes=6561, fmtrand=5000) + g('convert', cvrand=2200)),
@@ -81,8 +81,8 @@ PROPS = {
              'non-trivial = a call into the crate on a non-empty input; distinct = distinct inputs',
     ),
     'C04': dict(
-        gens=dict(quick=g('stream', v1good=200, v1struct=60, v1len=40, v1max=20, v2good=150, v2len=40, mixed=80, bigtrail=6),
-                  thorough=g('stream', v1good=5000, v1struct=2000, v1len=600, v1max=400, v2good=4000, v2len=2000, mixed=2500, bigtrail=60)),
+        gens=dict(quick=g('stream', v1good=200, v1struct=60, v1len=40, v1max=20, v2good=150, v2len=40, mixed=80, bigtrail=6, huge=6),
+                  thorough=g('stream', v1good=5000, v1struct=2000, v1len=600, v1max=400, v2good=4000, v2len=2000, mixed=2500, bigtrail=60, huge=80)),
         models=[MC_V1, MC_V2, MC_MIXED],
         rule='stream sessions whose header is followed by trailers (application bytes, another header, CR/LF/NUL, a '
              'digit, a TLV); non-trivial = an event after the first accept in the session, or the re-parse of the '
@@ -96,8 +96,8 @@ PROPS = {
              'first accept of a session that visited at least one proper prefix of that header; distinct = distinct headers+splits',
     ),
     'C06': dict(
-        gens=dict(quick=g('stream', mixed=200, v1good=80, v1len=40, v1struct=40, v1mutate=100, v2mutate=150, v2good=80, v2corrupt=60, v1junk=60, bytes=60),
-                  thorough=g('stream', mixed=6000, v1good=2000, v1len=600, v1struct=1500, v1mutate=4000, v2mutate=4000, v2good=2000, v2corrupt=2000, v1junk=2000, bytes=2000)),
+        gens=dict(quick=g('stream', mixed=200, v1good=80, v1len=40, v1struct=40, v1mutate=100, v2mutate=150, v2good=80, v2corrupt=60, v1junk=60, bytes=60, huge=4),
+                  thorough=g('stream', mixed=6000, v1good=2000, v1len=600, v1struct=1500, v1mutate=4000, v2mutate=4000, v2good=2000, v2corrupt=2000, v1junk=2000, bytes=2000, huge=40)),
         models=[MC_MIXED, MC_V1, MC_V2],
         rule='every stream event (the three verdicts on the same buffer); non-trivial = non-empty buffer',
     ),
@@ -170,7 +170,7 @@ PROPS = {
              'TLV (owned-copy clause, read after the input buffer was overwritten and dropped)',
     ),
     'C17': dict(
-        gens=dict(quick=g('stream', v2len=500, v2good=150, v2mutate=150, v2corrupt=80), thorough=g('stream', v2len=6000, v2good=4000, v2mutate=4000, v2corrupt=2000)),
+        gens=dict(quick=g('stream', v2len=500, v2good=150, v2mutate=150, v2corrupt=80, huge=4), thorough=g('stream', v2len=6000, v2good=4000, v2mutate=4000, v2corrupt=2000, huge=40)),
         models=[MC_V2],
         rule='truncated v2 headers delivered in chunks ending exactly at / before the declared length; non-trivial = '
              'an Incomplete or Partial verdict; distinct = distinct inputs',
